@@ -12,6 +12,7 @@ I : the property itself on the implementation, for every non-linear-capable mode
     integration threads (1e-12).
 """
 import contextlib
+import os
 import io
 import json
 import sys
@@ -249,8 +250,82 @@ def integratev_case(ctx, rng):
     return None
 
 
+# ----------------------------------------------------------------------------- stage 2: the non-linear kernels themselves (T + V)
+NL_EXPECTED = os.path.join(os.path.dirname(os.path.dirname(os.path.abspath(__file__))), 'translate', 'conecyl_nl_expected.json')
+
+
+def translate(ctx):
+    """T: regenerate Gen/ConeCylNL/<Model>.lean and the per-model case lemmas Spec/ShellJacobian/<Model>(/*).lean from the *_nonlinear.pyx
+    sources of the tree under test (files are rewritten only when their content changes, so an unchanged source costs no rebuild)."""
+    from tools.translate import gen_conecyl_nl as G, gen_shell_jacobian as SJ
+    ctx._nl = {}
+    for name, M in G.translate_all().items():
+        M2, bad, files = SJ.generate(name, M)
+        ctx._nl[name] = (M, {k: sorted(v) for k, v in bad.items() if v})
+    for name in ('FsdtDonnellBc1', 'FsdtDonnellBcn'):
+        SJ.emit_fsdt_refutation(name)
+    ctx.cov['nonlinear_kernels_translated'] = sorted(ctx._nl) + ['FsdtDonnellBc1 (IR + refutation)', 'FsdtDonnellBcn (IR + refutation)']
+
+
+def nl_source_arm(ctx, reason):
+    """model arm: which structural identity of WHICH kernel fails on the source as written (exact rational evaluation of the translated
+    terms), compared with what fails on the unchanged tree (the recorded Sanders defects); a new failing identity is reported with its witness"""
+    from tools.translate import gen_conecyl_nl as G, gen_shell_jacobian as SJ
+    try:
+        expected = json.load(open(NL_EXPECTED))
+    except Exception:                            # noqa
+        expected = {}
+    nl = getattr(ctx, '_nl', None)
+    if nl is None:
+        nl = {}
+        for name in G.MODELS:
+            try:
+                M = G.translate_ir(name)
+                nl[name] = (M, {k: sorted(v) for k, v in SJ.failing_cases(M).items() if v})
+            except Exception as e:               # noqa
+                ctx.log('non-linear translator unusable for %s: %s' % (name, e))
+    for name, (M, bad) in sorted(nl.items()):
+        exp = {k: [tuple(x) if isinstance(x, list) else x for x in v] for k, v in expected.get(name, {}).items()}
+        for field, cases in bad.items():
+            new = [c for c in cases if (tuple(c) if isinstance(c, (list, tuple)) else c) not in exp.get(field, [])]
+            ctx.evaluations += 1
+            if new:
+                ctx.violation('C17 fails on the source as written: in %s the structural identity `%s` of the non-linear kernels no longer holds for the '
+                              'degree-of-freedom type(s) %r (exact rational evaluation of the translated cfk0L / cfkLL / cfkG / cffint terms at a random '
+                              'point; on the unchanged tree it holds) - the tangent integrand is then not the derivative of the internal-force integrand; '
+                              'the running binary is stale w.r.t. this source if the implementation arm stays quiet' % (name, field, new[:6]),
+                              dict(kind='nl source arm', model=name, identity=field, cases=[list(c) if isinstance(c, tuple) else c for c in new[:20]],
+                                   broken=reason))
+                return True
+    return False
+
+
+def nl_validation(ctx):
+    """V: the translated IR interpreted at the integration points against the compiled calc_k0L / calc_kLL / calc_kG / calc_fint_0L_L0_LL"""
+    from tools import conecyl_nl_v as V
+    from tools.translate import gen_conecyl_nl as G
+    worst = {}
+    for name in G.MODELS:
+        M = ctx._nl[name][0] if getattr(ctx, '_nl', None) and name in ctx._nl else None
+        w = V.validate(name, ncases=ctx.scale(2, 6), seed=ctx.seed, M=M)
+        ctx.evaluations += 4 * ctx.scale(2, 6)
+        worst[name] = {k: float('%.3g' % w[k]) for k in ('k0L', 'kLL', 'kG', 'fint')}
+        for k in ('k0L', 'kLL', 'kG', 'fint'):
+            if w[k] > 1e-9:
+                ctx.violation('translated non-linear kernel %s.%s interpreted at the integration points differs from the compiled module: rel %.3e '
+                              '(source and binary diverge, or translator error)' % (name, k, w[k]), dict(kind='V nl', model=name, kernel=k),
+                              found_input=False)
+                return True
+    ctx.cov['nonlinear_kernels_V_max_rel'] = worst
+    return False
+
+
 def correspondence(ctx):
     rng = ctx.rng
+    if nl_source_arm(ctx, ['every run']):
+        return
+    if nl_validation(ctx):
+        return
     dist = dict(models={}, cones=0, simps=0, imperfect=0, inc_ne_1=0, max_rel_ok_models=0., glue=0)
     for k in range(ctx.scale(6, 40)):
         ctx.evaluations += 1
@@ -290,6 +365,8 @@ def correspondence(ctx):
 
 
 def search(ctx, reason):
+    if nl_source_arm(ctx, reason):
+        return True
     rng = ctx.rng
     for k in range(ctx.scale(30, 200)):
         case = gen_case(rng)
